@@ -226,7 +226,7 @@ func TestC09(t *testing.T) {
 		if full {
 			rec.Exhaustive("4-man classes KQvKR KRvKB KPvKP KQvKP KRvKN KBNvK KQQvK KRRvK KPPvK KRvKQ KvKPP KvKBN complete")
 		}
-		rec.Rapid(t, "generated", evid.Pick(30000, 600000), func(t *rapid.T) {
+		rec.Rapid(t, "generated", evid.Pick(100000, 1500000), func(t *rapid.T) {
 			var p refchess.Pos
 			label := ""
 			switch gen.Draw(t, 0, 5, "family") {
